@@ -72,6 +72,8 @@ class STL(object):
     def operator_handler(self, objt, opname):
         if self.is_vector(objt) and opname == "operator[]":
             return self.vec_index
+        if self.is_map(objt) and opname == "operator[]":
+            return self.map_index
         if self.is_string(objt) and opname in ("operator==", "operator!="):
             return self.str_eq
         if "_Rb_tree_iterator" in objt or "_Rb_tree_const_iterator" in objt or "::iterator" in objt:
@@ -214,6 +216,34 @@ class STL(object):
         sk = ("f", "#msize", "I")
         osz = tm.select(ex.heap_arr(st, sk), recv)
         st.heap[sk] = tm.store(ex.heap_arr(st, sk), (recv,), tm.ite(has, osz, tm.add(osz, tm.num(1, "I"))))
+        return [(st, tm.num(0, "I"))]
+
+    def mobj(self, a, k):
+        """address of the mapped object of key k in map a (stable per key; == &it->second for it = find(k))"""
+        return tm.app("fld:second", (tm.app("mnode", (tm.app("miter", (a, k), "P"),), "P"),), "P")
+
+    def map_index(self, ex, st, n, name, arg_nodes):
+        """m[k]: reference to the mapped value, default-inserting k when absent"""
+        out = []
+        for s1, l in ex.lv(arg_nodes[0], st):
+            a = ex.address(s1, l)
+            for s2, kk in ex.ev(arg_nodes[1], s1):
+                k = self.mkey(ex, kk)
+                has = self.mhas(ex, s2, a, k)
+                hk = ("m2", "#mhas", "B", k.sort)
+                s2.heap[hk] = tm.store(ex.heap_arr(s2, hk), (a, k), tm.TRUE)
+                sk = ("f", "#msize", "I")
+                osz = tm.select(ex.heap_arr(s2, sk), a)
+                s2.heap[sk] = tm.store(ex.heap_arr(s2, sk), (a,), tm.ite(has, osz, tm.add(osz, tm.num(1, "I"))))
+                s2.events.append(self.sx.Event("map.operator[]", a, [k, has], tm.num(0, "I"), n))
+                out.append((s2, self.mobj(a, k)))
+        return out
+
+    def map_erase(self, ex, st, n, name, recv, args):
+        k = self.mkey(ex, args[0])
+        hk = ("m2", "#mhas", "B", k.sort)
+        st.heap[hk] = tm.store(ex.heap_arr(st, hk), (recv, k), tm.FALSE)
+        st.events.append(self.sx.Event("map.erase", recv, [k], tm.num(0, "I"), n))
         return [(st, tm.num(0, "I"))]
 
     def iter_eq(self, ex, st, n, name, arg_nodes, negate=False):
